@@ -18,20 +18,21 @@ import (
 )
 
 type Scenario struct {
-	Side       string   `json:"side"`              // sink | visitor
-	Target     string   `json:"target"`            // encoder format or producer name
-	Options    []string `json:"options,omitempty"` // json encoder options
-	Stream     string   `json:"stream,omitempty"`  // event ops (sink side, adapters)
-	Doc        string   `json:"doc_hex,omitempty"` // parser producers
-	Entry      string   `json:"entry,omitempty"`
-	Cuts       []int    `json:"cuts,omitempty"`
-	Reads      []int    `json:"read_sizes,omitempty"`
-	BufSize    int      `json:"bufsize,omitempty"`
-	WriterKind int      `json:"writer_kind,omitempty"` // simkit.Writer.AsWriter: 1 +io.ByteWriter, 2 +io.StringWriter, 3 both
-	Type       string   `json:"go_type,omitempty"`     // fold producers
-	Value      string   `json:"go_value,omitempty"`
-	K          int      `json:"k"`
-	Total      int      `json:"total"`
+	Side        string   `json:"side"`              // sink | visitor
+	Target      string   `json:"target"`            // encoder format or producer name
+	Options     []string `json:"options,omitempty"` // json encoder options
+	Stream      string   `json:"stream,omitempty"`  // event ops (sink side, adapters)
+	Doc         string   `json:"doc_hex,omitempty"` // parser producers
+	Entry       string   `json:"entry,omitempty"`
+	Cuts        []int    `json:"cuts,omitempty"`
+	Reads       []int    `json:"read_sizes,omitempty"`
+	BufSize     int      `json:"bufsize,omitempty"`
+	WriterKind  int      `json:"writer_kind,omitempty"` // simkit.Writer.AsWriter: 1 +io.ByteWriter, 2 +io.StringWriter, 3 both
+	Type        string   `json:"go_type,omitempty"`     // fold producers
+	Value       string   `json:"go_value,omitempty"`
+	UserFolders int      `json:"user_folders,omitempty"` // model.FolderOpts variant
+	K           int      `json:"k"`
+	Total       int      `json:"total"`
 }
 
 type Engine struct{}
@@ -475,18 +476,22 @@ func foldFaults(c *simkit.Choices, x *simkit.Ctx) *simkit.Violation {
 	val := te.Gen(c)
 	useIter := c.Bool()
 	sc := &Scenario{Side: "visitor", Target: "gotype.Fold", Type: te.Name, Value: model.Render(val)}
+	if c.N(4) == 0 {
+		sc.UserFolders = 1 + c.N(model.NumFolderVariants-1)
+	}
+	fopts := model.FolderOpts(sc.UserFolders)
 	if useIter {
 		sc.Target = "gotype.Iterator.Fold"
 	}
 	run := func(t *simkit.Tap) error {
 		if useIter {
-			it, err := gotype.NewIterator(t)
+			it, err := gotype.NewIterator(t, fopts...)
 			if err != nil {
 				return err
 			}
 			return it.Fold(val)
 		}
-		return gotype.Fold(val, t)
+		return gotype.Fold(val, t, fopts...)
 	}
 	dry := simkit.NewTap(nil)
 	dry.NoRecord = true
